@@ -705,7 +705,13 @@ pub fn nonstring_class(text: &str, opt: Opt) -> Cls {
     let f = float_read(text);
     let b = bool_read(text);
     let n = null_class(text);
-    let int_strict = |r: &IntRead| r.cls == Cls::Strict && r.radix != 2; // `0b` is an extension other parsers do not know: grey
+    // `0b` is an extension other parsers do not know: grey; a value no integer type of the
+    // library can hold (beyond i128 / u128) "can be parsed as a number" by nothing here: grey
+    let int_strict = |r: &IntRead| {
+        r.cls == Cls::Strict
+            && r.radix != 2
+            && (r.mags[0].fits_signed(r.neg, 128) || r.mags[0].fits_unsigned(r.neg, 128))
+    };
     let def = int_strict(&i0)
         || int_strict(&i1)
         || (f.cls == Cls::Strict)
